@@ -113,7 +113,12 @@ func (c *CmdLine) Complete() ([]string, error) {
 		return nil, err
 	}
 	logger.Trace().Msgf("cmdLine Complete result: %v", assembly)
-	return []string{assembly}, nil
+	if assembly == "" {
+		return []string{assembly}, nil
+	}
+	// Wrap in non-capturing group to retain semantics. The parent processor uses the result
+	// as a single unit (e.g., for concatenation), which an alternation of commands isn't.
+	return []string{"(?:" + assembly + ")"}, nil
 }
 
 // Consume applies the state of a nested processor
